@@ -71,7 +71,7 @@ pub enum SCmd {
     Send { k: String, data: Bytes, cancel: oneshot::Receiver<()> },
     TrySend { k: String, data: Bytes },
     Chunks { k: String, parts: Vec<Bytes>, end: ChunkEnd, cancel: oneshot::Receiver<()> },
-    Connect { k: String, n: usize, wait: bool, cancel: oneshot::Receiver<()> },
+    Connect { k: String, n: usize, wait: bool, custom_ids: bool, cancel: oneshot::Receiver<()> },
     Closed { k: String, cancel: oneshot::Receiver<()> },
     IsClosed { k: String },
     OverrideGraceful { on: bool },
@@ -195,12 +195,19 @@ fn sender_actor(
                         _ = cancel => cancelled(&pending, &k),
                     }
                 }
-                SCmd::Connect { k, n, wait, cancel } => {
+                SCmd::Connect { k, n, wait, custom_ids, cancel } => {
                     let alloc = tx.port_allocator();
                     let fut = async {
                         let mut ports = Vec::new();
                         for _ in 0..n {
-                            ports.push(PortReq::new(alloc.allocate().await));
+                            let port = alloc.allocate().await;
+                            if custom_ids {
+                                let id = (*port).wrapping_mul(7).wrapping_add(1);
+                                tr(format!("apiid {} {}", *port, id));
+                                ports.push(PortReq::new(port).with_id(id));
+                            } else {
+                                ports.push(PortReq::new(port));
+                            }
                         }
                         let nums: Vec<u32> = ports.iter().map(|p| *p.port).collect();
                         (nums, tx.connect(ports, wait).await)
@@ -770,7 +777,9 @@ impl World {
             "connect" => {
                 // connect k side name wait=0|1
                 let (k, side, name) = (t[1].to_string(), side_idx(t[2]), t[3].to_string());
-                let wait = parse_kv(&t[4..]).get("wait").map(|v| v == "1").unwrap_or(true);
+                let kvs = parse_kv(&t[4..]);
+                let wait = kvs.get("wait").map(|v| v == "1").unwrap_or(true);
+                let custom_id: Option<u32> = kvs.get("id").and_then(|v| v.parse().ok());
                 let cancel = self.begin(&k);
                 match self.clients[side].clone() {
                     None => done(&self.pending, &k, "err no-client".into()),
@@ -779,7 +788,16 @@ impl World {
                         let produced = self.produced_tx.clone();
                         tokio::spawn(async move {
                             let fut = async {
-                                let mut c = client.connect_ext(None, wait).await?;
+                                let req = match custom_id {
+                                    Some(id) => {
+                                        // explicit port request with an id that differs from the port number
+                                        let port = client.port_allocator().allocate().await;
+                                        tr(format!("apiid {} {}", *port, id));
+                                        Some(PortReq::new(port).with_id(id))
+                                    }
+                                    None => None,
+                                };
+                                let mut c = client.connect_ext(req, wait).await?;
                                 c.sent().await;
                                 tr(format!("sent {k}"));
                                 c.await
@@ -893,6 +911,7 @@ impl World {
                             k,
                             n: kv.get("n").map(|v| v.parse().unwrap()).unwrap_or(1),
                             wait: kv.get("wait").map(|v| v == "1").unwrap_or(true),
+                            custom_ids: kv.get("ids").map(|v| v == "custom").unwrap_or(false),
                             cancel,
                         }
                     }
